@@ -293,6 +293,30 @@ impl Sweep for Functions {
             judge("direct-DEF", &Prog::default(), &[vec![Stmt::Def("FNA".into(), vec!["X".into()], var("X"))], vec![p(f("FNA", vec![int(1)]))]], ctx);
             let prog = Prog { lines: vec![Line { num: 10, stmts: vec![Stmt::Def("FNA".into(), vec!["X".into()], bin(BinOp::Mul, var("X"), int(2)))] }] };
             judge("direct-DEF", &prog, &[run.clone(), vec![Stmt::Def("FNA".into(), vec!["X".into()], var("X"))], vec![p(f("FNA", vec![int(4)]))]], ctx);
+            // a call with an empty argument list is a run-time error of the calling line, not a refusal of the whole program
+            for (call, code) in [("FNA()", "ILLEGAL FUNCTION CALL"), ("FNZ()", "UNDEFINED USER FUNCTION"), ("FNA(1,2)", "ILLEGAL FUNCTION CALL"), ("FNZ(1)", "UNDEFINED USER FUNCTION")] {
+                let lines = ["10 DEF FNA(X)=X+1".to_string(), "20 PRINT \"m\";".to_string(), format!("30 PRINT {}", call)];
+                if ctx.begin(&format!("{} // RUN", lines.join(" / "))) {
+                    let r = guard(|| {
+                        let mut s = Session::new();
+                        for l in &lines {
+                            s.enter(l);
+                        }
+                        s.take();
+                        s.enter("RUN");
+                        render_codes(&s.take())
+                    });
+                    match r {
+                        Err(pn) => ctx.violation("wrong-arity-call/panic", pn),
+                        Ok(t) => {
+                            ctx.nontrivial(hash64(&(call, &t)));
+                            if !t.starts_with("m") || !t.contains(&format!("<?{} IN 30>", code)) {
+                                ctx.violation("wrong-arity-call/not-a-run-time-error-of-the-calling-line", format!("{} : RUN gave {:?}", lines.join(" / "), t));
+                            }
+                        }
+                    }
+                }
+            }
             // an edit of the listing forgets every definition: a call from direct mode before the next RUN is undefined
             for edit in ["10", "5 REM", "10 DEF FNA(X)=X+1", "DELETE 10", "DELETE 30", "RENUM", "40 REM", "20", "25 PRINT 1"] {
                 let lines = ["10 DEF FNA(X)=X+1", "20 DEF FNB(X)=X*100", "30 PRINT FNA(1);FNB(1);"];
